@@ -697,6 +697,10 @@ def run_c05(report):
 
 # ------------------------------------------------------------------ C06
 
+QUERIES = ("getinfo", "listdir", "scandir", "exists", "isdir", "isfile", "isempty", "getsize", "gettype", "readbytes",
+           "openread")
+
+
 def run_c06(report):
     proof = common.preflight(report)
     thorough = report.tier == "thorough"
@@ -705,6 +709,7 @@ def run_c06(report):
     failing = []
     total = 0
     dist = collections.Counter()
+    succeeding = []
     for bc in B.ALL:
         use = regress + (hs if bc in (B.Mem, B.OS, B.SubMem) or thorough else hs[:60])
         for s in run_histories(bc, use):
@@ -712,9 +717,16 @@ def run_c06(report):
             if not s.outcome.startswith("ok:"):
                 failing.append(s)
                 dist[(s.backend, s.op[0], s.outcome)] += 1
+            elif s.op[0] not in QUERIES:
+                succeeding.append(s)
     refs = ref_steps(failing)
     bad = []
     nontrivial = set()
+    # a call whose preconditions do not hold must fail: the reference rejects it, the backend returned normally
+    for s, r in zip(succeeding, ref_steps(succeeding)):
+        if r.split("#", 1)[0].startswith("fail:"):
+            bad.append((s, r, "the call returned normally although its preconditions do not hold (reference: %s)"
+                        % r.split("#", 1)[0]))
     for s, r in zip(failing, refs):
         rres = r.split("#", 1)[0]
         nontrivial.add((s.op[0], s.outcome, fsops.canon_tree(s.pre)))
@@ -920,6 +932,35 @@ def query_check(fs, path, is_dir_expected=None):
                     full = [i.name for i in fs.scandir(path)]
                     if pg[0] != "ok" or pg[1] != full[a:b]:
                         bad.append("page (%d,%d) is not the slice" % (a, b))
+                # filterdir: filters first, then the page; files/dirs/exclude filters select by name and kind
+                names_all = [i.name for i in sd[1]]
+                filt_sets = [dict(), dict(files=["a*", "*.b"]), dict(dirs=["b*", "c"]), dict(exclude_files=["a*"]),
+                             dict(exclude_dirs=["b", "a*"]), dict(files=["*"], exclude_dirs=["*"]),
+                             dict(files=[names_all[0]] if names_all else ["zz"])]
+                import fs.wildcard as _W
+                for kw in filt_sets:
+                    fl = q(lambda: list(fs.filterdir(path, namespaces=["details"], **kw)))
+                    if fl[0] != "ok":
+                        bad.append("filterdir(%r) fails: %s" % (kw, fl))
+                        continue
+                    want = []
+                    for i in sd[1]:
+                        if i.is_dir:
+                            keep = (not kw.get("exclude_dirs") or not _W.match_any(kw["exclude_dirs"], i.name)) and \
+                                (not kw.get("dirs") or _W.match_any(kw["dirs"], i.name))
+                        else:
+                            keep = (not kw.get("exclude_files") or not _W.match_any(kw["exclude_files"], i.name)) and \
+                                (not kw.get("files") or _W.match_any(kw["files"], i.name))
+                        if keep:
+                            want.append(i.name)
+                    got = [i.name for i in fl[1]]
+                    if sorted(got) != sorted(want):
+                        bad.append("filterdir(%r) selects %s, the filters select %s" % (kw, sorted(got), sorted(want)))
+                        continue
+                    for (a, b) in ((0, 1), (1, 3), (0, n), (1, n + 2), (2, 1)):
+                        pg = q(lambda: [i.name for i in fs.filterdir(path, page=(a, b), **kw)])
+                        if pg[0] != "ok" or pg[1] != got[a:b]:
+                            bad.append("filterdir(%r) page (%d,%d) is not the slice of the filtered listing" % (kw, a, b))
         else:
             bad.append("isdir but listdir fails: %s" % (ld,))
     return bad
